@@ -248,6 +248,7 @@ package tlv
 //@   trusted
 //@   requires occurrence >= 1
 //@   ensures result != nil && ref(result) == childOf(ref(n), tag, occurrence) && (nodeValid(result) ==> nodeTag(ref(result)) == tag)
+//@   ensures "decoded-trees-have-at-most-maxDecodeNodes-nodes": nodeValid(result) ==> occurrence <= 10000
 //@   pure
 //@ func (nodes TlvNodes) Nodes
 //@   trusted
